@@ -222,15 +222,41 @@ class Gen:
             return "{% liquid\n" + "\n".join(lines) + "\n%}"
         if k < 0.97:
             return "{{ " + self.svar() + " if " + self.cvar() + " else " + self.sexpr(1) + " }}"
-        if self.dicts:
+        if self.dicts and r.random() < 0.5:
             self.wild = True
             return "{{ " + r.choice(self.dicts) + " }}"
         return self.text()
 
+    def extra_stmt(self, depth: int) -> str:
+        """Output-writing constructs besides {{ }}: increment / decrement, cycle
+        outside a loop, a loop over the characters of a data string, tablerow."""
+        r = self.r
+        k = r.random()
+        if k < 0.2:
+            return "{% " + r.choice(["increment", "decrement"]) + " " + r.choice(["n1", "n2"]) + " %}"
+        if k < 0.4:
+            return "{% cycle " + self.svar() + ", " + self.svar() + ", 'x' %}"
+        if k < 0.65:
+            x = self.fresh("ch")
+            self.scope_strs.append(x)
+            body = "{{ " + x + " }}" + self.text() + ("{% echo " + x + " | upcase %}" if r.random() < 0.5 else "")
+            self.scope_strs.remove(x)
+            return "{% for " + x + " in " + self.cvar() + " %}" + body + "{% endfor %}"
+        if self.lists:
+            x = self.fresh("t")
+            self.scope_strs.append(x)
+            body = self.text() + "{{ " + x + " }}" + (self.stmt(depth + 1) if depth < 2 else "")
+            if r.random() < 0.4:
+                body += "{% echo " + x + " | append: " + self.sarg() + " %}"
+            self.scope_strs.remove(x)
+            return ("{% tablerow " + x + " in " + r.choice(self.lists) + " cols: " + str(r.choice([1, 2, 3])) + " %}"
+                    + body + "{% endtablerow %}")
+        return "{% echo " + self.sexpr(1) + " %}"
+
     def block(self, depth: int) -> str:
         n = self.r.choice([1, 1, 2, 2, 3])
         saved = list(self.scope_strs)
-        out = "".join(self.text() + self.stmt(depth) for _ in range(n))
+        out = "".join(self.text() + (self.extra_stmt(depth) if self.r.random() < 0.15 else self.stmt(depth)) for _ in range(n))
         # names assigned inside stay visible (assign/capture are template-scoped) except in isolated scopes
         self.scope_strs = [s for s in self.scope_strs if s in saved or s.startswith(("v", "c"))]
         return out
@@ -288,10 +314,16 @@ def gen_program(r) -> tuple[dict[str, str], dict[str, Any], bool]:  # noqa: ANN0
     return templates, data, g.wild
 
 
-def render_program(templates: dict[str, str], data: dict[str, Any]) -> str:
-    from liquid2 import DictLoader, Environment
+def render_program(templates: dict[str, str], data: dict[str, Any], mode: str = "sync") -> str:
+    """Render 'main' under the sync or the async API (template loading included).
+    liquid2.shopify.Environment is the default environment plus `tablerow`."""
+    from liquid2 import DictLoader
+    from liquid2.shopify import Environment
     env = Environment(auto_escape=True, loader=DictLoader(templates))
-    return env.get_template("main").render(**data)
+    if mode == "sync":
+        return env.get_template("main").render(**data)
+    tmpl = X.arun(env.get_template_async("main"))
+    return X.arun(tmpl.render_async(**data))
 
 
 FIXED: list[tuple[dict[str, str], dict[str, Any]]] = [
@@ -307,11 +339,26 @@ FIXED: list[tuple[dict[str, str], dict[str, Any]]] = [
      {"l": ["<", "&"], "n": ["<", ["&", [">"]]], "s": "'\""}),
     ({"main": "{% liquid\necho s\nassign v = s | upcase\necho v\n%}{% echo s | append: s %}"}, {"s": "<a&'\">"}),
     ({"main": "{{ s if s else 'x' }}{{ 'x' if n else s | append: s }}{% with a: s %}{{ a }}{% endwith %}"}, {"s": "<a&'\">", "n": None}),
+    # every construct that writes to the output, in both API modes (an async twin that forgets auto_escape)
+    ({"main": "{% echo s %}{% echo l %}{% echo s | append: s %}"}, {"s": "<a&'\">", "l": ["<", ["&"]]}),
+    ({"main": "{% liquid\n  assign y = s | upcase\n  echo y\n  cycle s, y\n  increment n\n%}"}, {"s": "<a&'\">"}),
+    ({"main": "{% capture c %}{% echo s %}{% cycle s, s %}{% endcapture %}{{ c }}{% echo c %}"}, {"s": "<a&'\">"}),
+    ({"main": "{% for item in l %}{% render 'item', item: item, tail: s %}{% include 'item' %}{% endfor %}",
+      "item": "{% echo item | append: tail %}{{ item }}{% cycle item, tail %}"}, {"s": "<a&'\">", "l": ["<b>", "&'"], "tail": "\">"}),
+    ({"main": "{% macro m, a %}{% echo \"v ${a}\" %}{{ a }}{% cycle a %}{% endmacro %}{% call m, s %}"}, {"s": "<a&'\">"}),
+    ({"main": "{% cycle s, t %}{% cycle s, t %}{% increment n %}{% decrement n %}{% increment s %}"}, {"s": "<a&'\">", "t": "'\""}),
+    ({"main": "{% for ch in s %}[{{ ch }}{% echo ch %}{% cycle ch %}]{% endfor %}"}, {"s": "<a&'\">"}),
+    ({"main": "{% tablerow x in l cols: 2 %}{{ x }}{% echo x %}{% cycle x, s %}{% endtablerow %}"}, {"s": "<a&'\">", "l": ["<", "&", "'\""]}),
+    ({"main": "{% translate you: s, count: 2 %}One {{ you }}{% plural %}Many {{ you }}{% endtranslate %}{{ s | t: x: s }}{% echo 'Hi %(x)s' | t: x: s %}"},
+     {"s": "<a&'\">"}),
+    ({"main": "{% extends 'base' %}{% block b %}[{{ block.super }}|{% echo block.super %}]{% echo s %}{% endblock %}",
+      "base": "B{% block b %}base {% echo s %}{% cycle s %}{% endblock %}E"}, {"s": "<a&'\">"}),
+    ({"main": "{% echo \"a ${s} b\" %}{% assign v = \"x${s}\" %}{% echo v %}{% with a: s %}{% echo a %}{% endwith %}"}, {"s": "<a&'\">"}),
 ]
 
 
 def program_level(chk: C.Check, r, n: int) -> dict[str, Any]:  # noqa: ANN001
-    stats = {"programs": 0, "render_errors": 0, "origin_checked": 0, "wild": 0, "constructs": {}}
+    stats = {"programs": 0, "render_errors": 0, "origin_checked": 0, "wild": 0, "constructs": {}, "renders": {}}
     nontrivial: set[str] = set()
     samples: list[dict[str, Any]] = []
     progs: list[tuple[dict[str, str], dict[str, Any], bool]] = [(t, d, False) for t, d in FIXED]
@@ -319,33 +366,41 @@ def program_level(chk: C.Check, r, n: int) -> dict[str, Any]:  # noqa: ANN001
         progs.append(gen_program(r))
     for templates, data, wild in progs:
         src = "\n".join(f"[{k}] {v}" for k, v in templates.items())
-        try:
-            out = render_program(templates, data)
-        except Exception as e:  # noqa: BLE001
+        outs: dict[str, str] = {}
+        for mode in ("sync", "async"):
+            try:
+                outs[mode] = render_program(templates, data, mode)
+            except Exception as e:  # noqa: BLE001
+                stats.setdefault("error_kinds", {})
+                key = f"{mode}:{type(e).__name__}"
+                stats["error_kinds"][key] = stats["error_kinds"].get(key, 0) + 1
+        if not outs:
             stats["render_errors"] += 1
-            stats.setdefault("error_kinds", {})
-            stats["error_kinds"][type(e).__name__] = stats["error_kinds"].get(type(e).__name__, 0) + 1
             continue
         stats["programs"] += 1
         for tag in set(re.findall(r"\{%-?\s*(\w+)", src)) | ({"template_string"} if "${" in src else set()) | (
                 {"block.super"} if "block.super" in src else set()):
             stats["constructs"][tag] = stats["constructs"].get(tag, 0) + 1
         all_src = " ".join(templates.values())
-        fail = X.syntactic_oracle(all_src + (" | slice" if wild else ""), out)
-        if fail is None and not wild:
-            stats["origin_checked"] += 1
-            f2 = X.origin_oracle(lambda _s, d, t=templates: render_program(t, d), all_src, data, out)
-            if f2:
-                fail = "origin: " + f2
         if wild:
             stats["wild"] += 1
-        if fail:
-            chk.finding("oracle-program:" + fail.split(":")[0][:40],
-                        f"program {src!r} with {data!r} renders {out!r}: {fail}",
-                        {"templates": templates, "data": data, "output": out,
-                         "how": "Environment(auto_escape=True, loader=DictLoader(templates)).get_template('main').render(**data)"})
+        for mode, out in outs.items():
+            stats["renders"][mode] = stats["renders"].get(mode, 0) + 1
+            fail = X.syntactic_oracle(all_src + (" | slice" if wild else ""), out)
+            if fail is None and not wild:
+                stats["origin_checked"] += 1
+                f2 = X.origin_oracle(lambda _s, d, t=templates, m=mode: render_program(t, d, m), all_src, data, out)
+                if f2:
+                    fail = "origin: " + f2
+            if fail:
+                api = "render" if mode == "sync" else "render_async"
+                chk.finding("oracle-program:" + fail.split(":")[0][:40],
+                            f"[{api}] program {src!r} with {data!r} renders {out!r}: {fail}",
+                            {"templates": templates, "data": data, "output": out, "mode": mode,
+                             "how": f"liquid2.shopify.Environment(auto_escape=True, loader=DictLoader(templates)).get_template('main').{api}(**data)"})
+        out = outs.get("sync", next(iter(outs.values())))
         if any(c in repr(data) for c in "<>&") and any(e in out for e in X.ENT.values()):
             nontrivial.add(src + repr(data))
         if len(samples) < 3 and stats["programs"] % 151 == 12:
-            samples.append({"templates": templates, "data": data, "output": out})
+            samples.append({"templates": templates, "data": data, "output": outs})
     return {"programs": stats["programs"], "stats": stats, "nontrivial": nontrivial, "samples": samples}
